@@ -123,7 +123,7 @@ func (g *gen) multipartCases() {
 	r, rng := g.r, g.rng
 	kinds := []string{"path", "bytes", "reader", "upload"}
 	methods := []string{"POST", "POST", "PUT", "PATCH"}
-	n := r.Scale(330, 5000)
+	n := r.Scale(330, 2400)
 	for i := 0; i < n; i++ {
 		in := reqIn{Kind: "multipart", Method: hk.Pick(rng, methods)}
 		nf := 0
@@ -141,7 +141,7 @@ func (g *gen) multipartCases() {
 		default:
 			nf = 5
 		}
-		big := i%r.Scale(55, 12) == 7 // a few cases with a file around the 32 KiB copy buffer
+		big := i%r.Scale(55, 30) == 7 // a few cases with a file around the 32 KiB copy buffer
 		nameClass := 0
 		switch rng.Intn(10) {
 		case 0, 1, 2:
